@@ -9,6 +9,7 @@ pub mod c09;
 pub mod c10;
 pub mod c11;
 pub mod c12;
+pub mod c13;
 
 use engine::Space;
 
@@ -25,6 +26,7 @@ pub fn build(id: &str, tier: &str, _seed: u64) -> Option<Box<dyn Space + Sync + 
         "C10" => Box::new(c10::C10::new(tier)),
         "C11" => Box::new(c11::C11::new(tier)),
         "C12" => Box::new(c12::C12::new(tier)),
+        "C13" => Box::new(c13::C13::new(tier)),
         _ => return None,
     })
 }
